@@ -95,6 +95,8 @@ void hook_event(int kind, const void *p1, const void *p2, unsigned long n);
 void spy_event(bool enter, int stream);
 void io_event(int kind, int file, long n);   // not a scheduling point; goes into the trace
 void mem_access(const void *p, unsigned size, bool write);
+bool atomic_cb_begin(const void *a, int kind);   // 'tsi' builds: atomic operation seen by the instrumentation callbacks
+void atomic_cb_end(const void *a, int kind);
 void mem_fresh(const void *p, unsigned long n);   // 'tsi' builds: a heap block was just allocated / is being freed   // 'tsi' builds: an instrumented load/store is about to happen
 // monitor configuration
 void monitor_set_ready_probe(bool (*is_ready)(const void *ctrl));
